@@ -77,6 +77,7 @@ def execOp (op : Op) : M (List String) := do
       match w.entities.slots[id.idx]? with
       | none => pure ["ret none"]
       | some s =>
+        if g % 2 != 1 || g < s.gen then pure ["ret none"] else
         let ents := { w.entities with slots := w.entities.slots.set id.idx { s with gen := g } }
         let a ← getArch loc.arch "setgen:arch"
         set { w with entities := ents, ords := w.ords.map fun k => if k == id then id' else k }
